@@ -11,7 +11,7 @@ sh "$out/run_demo.sh" /repo > "$out/confirm_demo_pristine.txt" 2>&1; dc=$?
 echo "suite_pass=$suite demo_patched_rc=$dp demo_pristine_rc=$dc"
 if [ "$suite" = 1 ] && [ "$dp" != 0 ] && [ "$dc" = 0 ]; then
   d=/verif/seeded/$name; mkdir -p "$d"
-  cp "$out/patch.diff" "$out/demo.c" "$out/run_demo.sh" "$out/NOTES.md" "$d/" 2>/dev/null
+  cp -r "$out"/. "$d/" 2>/dev/null; rm -f "$d"/confirm_*.txt
   echo "CONFIRMED -> $d"
 else
   echo "NOT CONFIRMED"
